@@ -108,7 +108,8 @@ func IsCodeField(message proto.Message) bool {
 	if field != nil {
 		allowedKinds := []protoreflect.Kind{protoreflect.EnumKind, protoreflect.StringKind}
 		isValidFieldType := slices.Includes(allowedKinds, field.Kind())
-		return strings.HasSuffix(name, "Code") && isValidFieldType
+		// Wrappers of an element that is itself named "code" are called "CodeType".
+		return (strings.HasSuffix(name, "Code") || strings.HasSuffix(name, "CodeType")) && isValidFieldType
 	}
 	return false
 }
